@@ -3,19 +3,18 @@
   (served properties: C01 / C13 through Props/C04.lean).
 
   * uuid     — `uuidParse? (uuidStr n) = some n` for every `n < 2^128` (hex writer / reader, by induction);
-               the unmarshaller reads the text back under the hypothesis that `strload` leaves it alone
-               (`umUuid_text`).  For `pyLeaves` that hypothesis FAILS: the modelled `strload?` has no rule
-               for text with dashes, so `um .uuid (str(u))` is `unsupported` (`uuid_text_unsupported`) and
-               uuid stays outside the round-trip set `S2r`.  Pass-through holds (`S2`).
+               `pySl` returns the canonical UUID text unchanged (`pySl_uuidStr`), so the unmarshaller
+               reads it back (`umUuid_text`, `uuid_leaf_rt`).
   * Fraction — `fracOfStr (fracText n d) = frac n d` for every normalised fraction (`gcd |n| d = 1`); for
                an unnormalised pair the round trip is false (`fraction_rt_false_unnormalised`).
   * Decimal  — the value *is* its `str()` text; the reader is modelled on positional texts only
                (`decCanon`), which therefore is the side condition.
-  * path     — likewise (`pathCanon`), and the text must lie in the modelled `strload` fragment.
+  * path     — likewise (`pathCanon`), and the text must lie in the modelled `strload` fragment `pySl?`.
   * pattern  — literal patterns only (`patLiteral`): `re.compile` is not modelled beyond them.
   * bytes    — `um .bytes` is constantly `unsupported` in the model: nothing to prove, left out.
 -/
 import TypelibModel.Lemmas.TemporalText
+import TypelibModel.Lemmas.EnumRT
 namespace Typelib
 
 /-! ### Hexadecimal numerals and the UUID text -/
@@ -77,20 +76,253 @@ theorem uuid_text_rt {n : Nat} (h : n < uuidMax) : uuidParse? (uuidStr n) = some
 example : uuidStr 0x12345678123456781234567812345678 = "12345678-1234-5678-1234-567812345678".toList := by decide
 example : uuidStr (uuidMax - 1) = "ffffffff-ffff-ffff-ffff-ffffffffffff".toList := by decide
 
+/-! ### `strload` on canonical UUID text
+
+The fragment `strload?` (JSON documents and plain words) has no reading of the 8-4-4-4-12 text:
+the JSON lexer either fails or produces a number token followed by at least one more token, and
+the text is not a plain word.  `pySl` therefore takes its UUID rule and returns the text itself. -/
+
+/-- Characters of canonical UUID text. -/
+def uuidCh (c : Char) : Bool := (hexVal? c).isSome || c == '-'
+
+theorem spanDigits_spec : ∀ (s : Str), s = (spanDigits s).1 ++ (spanDigits s).2 ∧ stops (spanDigits s).2 = true
+    ∧ ∀ c ∈ (spanDigits s).1, isDigit c = true := by
+  intro s
+  induction s with
+  | nil => simp [spanDigits, stops]
+  | cons c cs ih =>
+    by_cases h : isDigit c = true
+    · simp only [spanDigits, h, if_true]
+      obtain ⟨h1, h2, h3⟩ := ih
+      refine ⟨by simp [← h1], h2, ?_⟩
+      intro d hd
+      simp only [List.mem_cons] at hd
+      rcases hd with rfl | hd
+      · exact h
+      · exact h3 d hd
+    · simp [spanDigits, h, stops]
+
+theorem lexFuel_acc : ∀ (n : Nat) (s : Str) (acc toks : List Tok), lexFuel n s acc = some toks →
+    ∃ ts, toks = acc.reverse ++ ts := by
+  intro n
+  induction n with
+  | zero => intro s acc toks h; simp [lexFuel] at h
+  | succ n ih =>
+    intro s acc toks h
+    cases s with
+    | nil => simp only [lexFuel, Option.some.injEq] at h; exact ⟨[], by simp [h]⟩
+    | cons c cs =>
+      unfold lexFuel at h
+      repeat' split at h
+      all_goals first
+        | cases h
+        | (obtain ⟨ts, rfl⟩ := ih _ _ _ h; first | exact ⟨_, rfl⟩ | (simp only [List.reverse_cons, List.append_assoc, List.singleton_append]; exact ⟨_, rfl⟩))
+
+theorem lexFuel_tok {n : Nat} {c : Char} {cs : Str} {acc toks : List Tok}
+    (h : lexFuel (n + 1) (c :: cs) acc = some toks) (hws : isJsonWs c = false) :
+    ∃ t ts, toks = acc.reverse ++ t :: ts := by
+  unfold lexFuel at h
+  simp only [hws, Bool.false_eq_true, if_false] at h
+  repeat' split at h
+  all_goals first
+    | cases h
+    | (obtain ⟨ts, rfl⟩ := lexFuel_acc _ _ _ _ h; simp only [List.reverse_cons, List.append_assoc, List.singleton_append]; exact ⟨_, _, rfl⟩)
+
+
+theorem uuidCh_not_ws {c : Char} (h : uuidCh c = true) : isJsonWs c = false := by
+  simp only [isJsonWs, Bool.or_eq_false_iff, beq_eq_false_iff_ne, ne_eq]
+  refine ⟨⟨⟨?_, ?_⟩, ?_⟩, ?_⟩ <;> (rintro rfl; revert h; decide)
+
+theorem uuidCh_of_hex {c : Char} (h : (hexVal? c).isSome = true) : uuidCh c = true := by
+  simp [uuidCh, h]
+
+def isNumTok : Tok → Bool
+  | .int _ | .float _ => true
+  | _ => false
+
+/-- On text made of hex digits and dashes, starting with a hex digit and containing a dash, a
+    number token never reaches the end of the text. -/
+theorem lexNumber_uuidish {c0 : Char} {cs : Str} {t : Tok} {rest : Str}
+    (h : lexNumber (c0 :: cs) = some (t, rest))
+    (h0 : (hexVal? c0).isSome = true) (hall : ∀ c ∈ cs, uuidCh c = true) (hd : '-' ∈ cs) :
+    isNumTok t = true ∧ ∃ r rs, rest = r :: rs ∧ isJsonWs r = false := by
+  have hall' : ∀ c ∈ c0 :: cs, uuidCh c = true := by
+    intro c hc
+    simp only [List.mem_cons] at hc
+    rcases hc with rfl | hc
+    · exact uuidCh_of_hex h0
+    · exact hall c hc
+  obtain ⟨hsp, hst, hdig⟩ := spanDigits_spec (c0 :: cs)
+  have hmem : '-' ∈ (spanDigits (c0 :: cs)).2 := by
+    have : '-' ∈ (spanDigits (c0 :: cs)).1 ++ (spanDigits (c0 :: cs)).2 := by
+      rw [← hsp]; simp [hd]
+    rcases List.mem_append.mp this with h1 | h2
+    · exact absurd (hdig _ h1) (by decide)
+    · exact h2
+  have hsub : ∀ c ∈ (spanDigits (c0 :: cs)).2, uuidCh c = true := by
+    intro c hc
+    apply hall'
+    rw [hsp]; exact List.mem_append.mpr (.inr hc)
+  unfold lexNumber at h
+  split at h
+  rename_i neg r heq
+  split at heq
+  · rename_i r' heq'
+    cases heq'
+    exact absurd h0 (by decide)
+  · cases heq
+    simp only at h
+    generalize (spanDigits (c0 :: cs)).1 = ip at h
+    generalize hr1 : (spanDigits (c0 :: cs)).2 = r1 at h hmem hsub
+    repeat' split at h
+    all_goals first
+      | (cases h; done)
+      | (exfalso; have := hsub '.' (by simp); revert this; decide)
+      | (simp only [Option.some.injEq, Prod.mk.injEq] at h
+         obtain ⟨rfl, rfl⟩ := h
+         refine ⟨rfl, ?_⟩
+         cases r1 with
+         | nil => cases hmem
+         | cons r rs => exact ⟨r, rs, rfl, uuidCh_not_ws (hsub r (by simp))⟩)
+
+
+theorem parseVal_num_two (k : Nat) (t t2 : Tok) (ts : List Tok) (h : isNumTok t = true) :
+    ∀ v, parseVal k (t :: t2 :: ts) ≠ some (v, []) := by
+  intro v hv
+  cases k with
+  | zero => simp [parseVal] at hv
+  | succ k =>
+    cases t <;> simp [isNumTok] at h
+    all_goals
+      unfold parseVal at hv
+      simp only at hv
+      repeat' split at hv
+      all_goals simp at hv
+
+theorem jsonParse_uuidish {c0 : Char} {cs : Str}
+    (h0 : (hexVal? c0).isSome = true) (hall : ∀ c ∈ cs, uuidCh c = true) (hd : '-' ∈ cs) :
+    jsonParse (c0 :: cs) = none := by
+  unfold jsonParse lex
+  cases hl : lexFuel ((c0 :: cs).length + 1) (c0 :: cs) [] with
+  | none => rfl
+  | some toks =>
+    have hws := uuidCh_not_ws (uuidCh_of_hex h0)
+    simp only [List.length_cons] at hl
+    unfold lexFuel at hl
+    simp only [hws, Bool.false_eq_true, if_false] at hl
+    split at hl
+    case h_9 =>
+      split at hl
+      · exfalso; have := hall 'l' (by simp); revert this; decide
+      · cases hl
+    case h_11 =>
+      split at hl
+      · rename_i t rest heq
+        obtain ⟨hnum, r, rs, rfl, hr⟩ := lexNumber_uuidish heq h0 hall hd
+        obtain ⟨t2, ts, rfl⟩ := lexFuel_tok hl hr
+        simp only [List.reverse_cons, List.reverse_nil, List.nil_append, List.singleton_append]
+        split
+        · rename_i v hv
+          exact absurd hv (parseVal_num_two _ t t2 ts hnum v)
+        · rfl
+      · cases hl
+    all_goals exact absurd h0 (by decide)
+
+
+theorem strload_uuidish {c0 : Char} {cs : Str}
+    (h0 : (hexVal? c0).isSome = true) (hall : ∀ c ∈ cs, uuidCh c = true) (hd : '-' ∈ cs) :
+    strload? (c0 :: cs) = none := by
+  have hm : '-' ∈ c0 :: cs := by simp [hd]
+  have hpw : isPlainWord (c0 :: cs) = false := by
+    cases hp : isPlainWord (c0 :: cs) with
+    | false => rfl
+    | true =>
+      simp only [isPlainWord, Bool.and_eq_true, List.all_eq_true] at hp
+      have := hp.1.1.1.1.1.1.2 '-' hm
+      revert this; decide
+  have hne : ∀ w : Str, '-' ∉ w → (c0 :: cs == w) = false := by
+    intro w hw
+    cases hb : (c0 :: cs == w) with
+    | false => rfl
+    | true => exact absurd (eq_of_beq hb ▸ hm) hw
+  unfold strload?
+  rw [jsonParse_uuidish h0 hall hd]
+  simp only [hpw, Bool.false_eq_true, if_false, hne "None".toList (by decide), hne "True".toList (by decide),
+    hne "False".toList (by decide)]
+
+theorem mem_hexFixed : ∀ (w n : Nat) (acc : Str) (c : Char), c ∈ hexFixed w n acc →
+    (hexVal? c).isSome = true ∨ c ∈ acc := by
+  intro w
+  induction w with
+  | zero => intro n acc c h; exact .inr h
+  | succ w ih =>
+    intro n acc c h
+    simp only [hexFixed] at h
+    rcases ih _ _ c h with h1 | h2
+    · exact .inl h1
+    · simp only [List.mem_cons] at h2
+      rcases h2 with rfl | h2
+      · left; rw [hexVal?_hexDigit _ (Nat.mod_lt _ (by decide))]; rfl
+      · exact .inr h2
+
+theorem uuidCh_uuidStr {n : Nat} {c : Char} (h : c ∈ uuidStr n) : uuidCh c = true := by
+  have hx : ∀ d, d ∈ hexFixed 32 n [] → uuidCh d = true := by
+    intro d hd
+    rcases mem_hexFixed 32 n [] d hd with h1 | h2
+    · exact uuidCh_of_hex h1
+    · cases h2
+  simp only [uuidStr, List.mem_append, List.mem_cons] at h
+  rcases h with (((h | rfl | h) | rfl | h) | rfl | h) | rfl | h
+  all_goals first
+    | decide
+    | exact hx _ (List.mem_of_mem_take h)
+    | exact hx _ (List.mem_of_mem_drop (List.mem_of_mem_take h))
+    | exact hx _ (List.mem_of_mem_drop h)
+
+theorem uuidStr_head (n : Nat) : ∃ k, k < 16 ∧ (uuidStr n)[0]? = some (hexDigit k) := by
+  refine ⟨_, ?_, rfl⟩
+  exact Nat.mod_lt _ (by decide)
+
+/-- The fragment `strload?` has no reading of canonical UUID text. -/
+theorem strload_uuidStr (n : Nat) : strload? (uuidStr n) = none := by
+  obtain ⟨k, hk, h0⟩ := uuidStr_head n
+  have h8 : (uuidStr n)[8]? = some '-' := rfl
+  have hall : ∀ c ∈ uuidStr n, uuidCh c = true := fun c hc => uuidCh_uuidStr hc
+  cases hs : uuidStr n with
+  | nil => rw [hs] at h8; cases h8
+  | cons c0 cs =>
+    rw [hs] at h0 h8 hall
+    simp only [List.getElem?_cons_zero, Option.some.injEq] at h0
+    subst h0
+    apply strload_uuidish
+    · rw [hexVal?_hexDigit k hk]; rfl
+    · exact fun c hc => hall c (by simp [hc])
+    · simp only [List.getElem?_cons_succ] at h8
+      exact List.mem_of_getElem? h8
+
+/-- `strload(str(u)) == str(u)`: the modelled `strload` returns canonical UUID text unchanged. -/
+theorem pySl_uuidStr {n : Nat} (h : n < uuidMax) : pySl (uuidStr n) = .ok (.str (uuidStr n)) := by
+  unfold pySl
+  rw [strload_uuidStr n]
+  simp [uuid_text_rt h]
+
 /-- `UUIDUnmarshaller` on the canonical text, for any leaf table whose `strload` returns that text
-    unchanged (the real `strload` does: neither `json.loads` nor `ast.literal_eval` accepts it). -/
+    unchanged. -/
 theorem umUuid_text (env : Env) (L : Leaves) {n : Nat} (h : n < uuidMax)
     (hsl : L.sl (uuidStr n) = .ok (.str (uuidStr n))) :
     umUuid env L (.str (uuidStr n)) = .ok (.uuid n) := by
   simp [umUuid, load, hsl, uuid_text_rt h]
 
-/-- The executable `strload?` is undefined on UUID text, so the executable leaves answer
-    `unsupported` (never compared by the correspondence): the uuid round trip cannot be stated for
-    `pyLeaves` as it stands. -/
-theorem uuid_text_unsupported :
-    (pyLeaves [] 0).mar .uuid (.uuid 5) = .ok (.str "00000000-0000-0000-0000-000000000005".toList)
-    ∧ (pyLeaves [] 0).um .uuid (.str "00000000-0000-0000-0000-000000000005".toList) = .error .unsupported := by
-  constructor <;> rfl
+/-- **`unmarshal(UUID, str(u)) == u`** on the executable leaves, for every 128-bit value. -/
+theorem umUuid_pyLeaves (env : Env) (today : Int) {n : Nat} (h : n < uuidMax) :
+    (pyLeaves env today).um .uuid (.str (uuidStr n)) = .ok (.uuid n) :=
+  umUuid_text env _ h (pySl_uuidStr h)
+
+example : (pyLeaves [] 0).mar .uuid (.uuid 5) = .ok (.str "00000000-0000-0000-0000-000000000005".toList) := by rfl
+example : (pyLeaves [] 0).um .uuid (.str "00000000-0000-0000-0000-000000000005".toList) = .ok (.uuid 5) := by rfl
+/-- Only the canonical spelling is in the fragment: upper case, braces, `urn:` and dash-less hex
+    (all accepted by `uuid.UUID`) stay `unsupported` or go through `strload?` as before. -/
+example : pySl "00000000-0000-0000-0000-00000000000A".toList = .error .unsupported := by rfl
 
 /-! ### ASCII / whitespace facts about numerals -/
 
@@ -297,7 +529,7 @@ def slKeepsPath (s : Str) : Option Val → Bool
 
 /-- Path texts the executable `umPath` reads back: normalised (`pathCanon`) and inside the modelled
     `strload` fragment (a plain word, or JSON / literal text that is not itself a string). -/
-def pathWire (s : Str) : Bool := pathCanon s && slKeepsPath s (strload? s)
+def pathWire (s : Str) : Bool := pathCanon s && slKeepsPath s (pySl? s)
 
 /-- The canonical-spelling condition per scalar kind (trivial for the kinds that need none). -/
 def canonScalar : Scalar → Val → Bool
@@ -331,20 +563,13 @@ def S2 : Scalar → Bool
   | .decimal | .fraction | .uuid | .path | .pattern => true
   | .bytes => false
 
-/-- `S2` without uuid: the kinds whose text wire form the executable leaves read back. -/
-def S2r : Scalar → Bool
-  | .int | .bool | .float | .str | .date | .datetime | .time | .timedelta
-  | .decimal | .fraction | .path | .pattern => true
-  | .uuid | .bytes => false
-
 theorem S2_of_S1 {s : Scalar} (h : S1 s = true) : S2 s = true := by
   cases s <;> simp [S1] at h <;> rfl
 
-theorem S2r_of_S1 {s : Scalar} (h : S1 s = true) : S2r s = true := by
-  cases s <;> simp [S1] at h <;> rfl
-
-theorem S2_of_S2r {s : Scalar} (h : S2r s = true) : S2 s = true := by
-  cases s <;> simp [S2r] at h <;> rfl
+theorem uuid_leaf_rt (env : Env) (today : Int) {n : Nat} (h : n < uuidMax) :
+    ∃ m, (pyLeaves env today).mar .uuid (.uuid n) = .ok m ∧ (pyLeaves env today).um .uuid m = .ok (.uuid n)
+      ∧ hashable m = true ∧ decode m ≠ .none :=
+  ⟨.str (uuidStr n), rfl, umUuid_pyLeaves env today h, rfl, by simp [decode]⟩
 
 theorem decimal_leaf_rt (env : Env) (today : Int) {s : Str} (h : decCanon s = true) :
     ∃ m, (pyLeaves env today).mar .decimal (.dec s) = .ok m ∧ (pyLeaves env today).um .decimal m = .ok (.dec s)
@@ -373,9 +598,8 @@ theorem umPath_text (env : Env) (today : Int) {s : Str} (h : pathWire s = true) 
   show umPath env _ (.str s) = _
   unfold umPath
   have hl : ∀ L : Leaves, L.sl = pySl → load env L (.str s) = pySl s := by intro L hL; simp [load, hL]
-  rw [hl _ rfl]
-  unfold pySl
-  cases hs : strload? s with
+  rw [hl _ rfl, pySl_eq]
+  cases hs : pySl? s with
   | none => simp [hs, slKeepsPath] at hk
   | some d =>
     rw [hs] at hk
@@ -386,15 +610,16 @@ theorem path_leaf_rt (env : Env) (today : Int) {s : Str} (h : pathWire s = true)
       ∧ (pyLeaves env today).um .path m = .ok (.path s) ∧ hashable m = true ∧ decode m ≠ .none :=
   ⟨.str s, rfl, umPath_text env today h, rfl, by simp [decode]⟩
 
-/-- **`LeafLaws.rt` for `pyLeaves` on `S2r`**, for canonically spelled values. -/
-theorem pyLeaves_rt_all (cal : CalLaw) (env : Env) (today : Int) : ∀ s v, S2r s = true → hasScalarC s v = true →
+/-- **`LeafLaws.rt` for `pyLeaves` on `S2`** (every kind but bytes), for canonically spelled values. -/
+theorem pyLeaves_rt_all (cal : CalLaw) (env : Env) (today : Int) : ∀ s v, S2 s = true → hasScalarC s v = true →
     ∃ m, (pyLeaves env today).mar s v = .ok m ∧ (pyLeaves env today).um s m = .ok v
       ∧ hashable m = true ∧ decode m ≠ .none := by
   intro s v hs hv
   by_cases h1 : S1 s = true
   · exact pyLeaves_rt_temporal cal env today s v h1 (hasScalarC_hasScalar hv)
-  · cases s <;> simp [S2r] at hs <;> simp [S1] at h1 <;> cases v <;>
+  · cases s <;> simp [S2] at hs <;> simp [S1] at h1 <;> cases v <;>
       simp [hasScalarC, hasScalar, canonScalar] at hv
+    case uuid.uuid n => exact uuid_leaf_rt env today hv
     case decimal.dec s => exact decimal_leaf_rt env today hv
     case fraction.frac n d => exact fraction_leaf_rt env today hv.1 hv.2
     case path.path s => exact path_leaf_rt env today hv
@@ -422,7 +647,7 @@ theorem fraction_rt_false_unnormalised :
 
 /-- Hence `pyLeaves_rt_all` with plain `hasScalar` in place of `hasScalarC` is false. -/
 theorem rt_all_false_without_canon :
-    ¬ (∀ s v, S2r s = true → hasScalar s v = true →
+    ¬ (∀ s v, S2 s = true → hasScalar s v = true →
         ∃ m, (pyLeaves [] 0).mar s v = .ok m ∧ (pyLeaves [] 0).um s m = .ok v) := by
   intro h
   obtain ⟨m, h1, h2⟩ := h .fraction (.frac 2 4) rfl rfl
